@@ -333,42 +333,45 @@ structure KwRes where
 def kwInput : Bytes := [105, 110, 112, 117, 116]
 def kwOutput : Bytes := [111, 117, 116, 112, 117, 116]
 
-/-- `get_keyword`; `depth` is `ctx->depth` (a `uint32_t`) -/
+/-- `get_keyword` from `keyword_start:` on (after `optsep` and comments); `depth` is `ctx->depth` (a `uint32_t`) -/
+def kwAt (ind depth : Nat) (s : Bytes) : Except LexErr KwRes :=
+  match s with
+  | 59 :: r => .ok { tok := .semi, word := [59], ind := ind + 1, depth := depth, rest := r }
+  | 123 :: r =>
+    let d := (depth + 1) % 4294967296      -- `ctx->depth++` on a `uint32_t`
+    if d > LY_MAX_BLOCK_DEPTH then .error .maxDepth
+    else .ok { tok := .lbrace, word := [123], ind := ind + 1, depth := d, rest := r }
+  | 125 :: r => .ok { tok := .rbrace, word := [125], ind := ind + 1, depth := (depth + 4294967295) % 4294967296, rest := r }
+  | _ =>
+    let (m, k, dind) := matchKw s
+    let ind1 := ind + dind
+    let r := s.drop k
+    let ext (first : Bool) (pfx : Nat) (ind : Nat) (n : Nat) (r : Bytes) : Except LexErr KwRes :=
+      match extLoop (r.length + 1) first pfx ind n r with
+      | .error e => .error e
+      | .ok (pfx', ind', n', r') =>
+        if pfx' != 2 then .error .inStrExp
+        else .ok { tok := .ext, word := s.take n', ind := ind', depth := depth, rest := r' }
+    if m then
+      match r with
+      | [] => .error .inStrExp
+      | c :: cs =>
+        if c == 13 then
+          match cs with
+          | 10 :: _ => .ok { tok := .kw, word := s.take (k + 1), ind := ind1 + 1, depth := depth, rest := cs }
+          | _ => .error .inChar
+        else if c == 10 || c == 9 || c == 32 then .ok { tok := .kw, word := s.take k, ind := ind1, depth := depth, rest := r }
+        else if c == 58 then ext false 1 (ind1 + 1) (k + 1) cs
+        else if (c == 123 || c == 59) && (s.take k == kwInput || s.take k == kwOutput) then
+          .ok { tok := .kw, word := s.take k, ind := ind1, depth := depth, rest := r }
+        else .error .inStrExp
+    else ext (k == 0) 0 ind1 k r
+
+/-- `get_keyword` -/
 def getKeyword (ind depth : Nat) (inp : Bytes) : Except LexErr KwRes :=
   match skipSep (inp.length + 1) ind inp with
   | .error e => .error e
-  | .ok (ind, s) =>
-    match s with
-    | 59 :: r => .ok { tok := .semi, word := [59], ind := ind + 1, depth := depth, rest := r }
-    | 123 :: r =>
-      let d := (depth + 1) % 4294967296      -- `ctx->depth++` on a `uint32_t`
-      if d > LY_MAX_BLOCK_DEPTH then .error .maxDepth
-      else .ok { tok := .lbrace, word := [123], ind := ind + 1, depth := d, rest := r }
-    | 125 :: r => .ok { tok := .rbrace, word := [125], ind := ind + 1, depth := (depth + 4294967295) % 4294967296, rest := r }
-    | _ =>
-      let (m, k, dind) := matchKw s
-      let ind1 := ind + dind
-      let r := s.drop k
-      let ext (first : Bool) (pfx : Nat) (ind : Nat) (n : Nat) (r : Bytes) : Except LexErr KwRes :=
-        match extLoop (r.length + 1) first pfx ind n r with
-        | .error e => .error e
-        | .ok (pfx', ind', n', r') =>
-          if pfx' != 2 then .error .inStrExp
-          else .ok { tok := .ext, word := s.take n', ind := ind', depth := depth, rest := r' }
-      if m then
-        match r with
-        | [] => .error .inStrExp
-        | c :: cs =>
-          if c == 13 then
-            match cs with
-            | 10 :: _ => .ok { tok := .kw, word := s.take (k + 1), ind := ind1 + 1, depth := depth, rest := cs }
-            | _ => .error .inChar
-          else if c == 10 || c == 9 || c == 32 then .ok { tok := .kw, word := s.take k, ind := ind1, depth := depth, rest := r }
-          else if c == 58 then ext false 1 (ind1 + 1) (k + 1) cs
-          else if (c == 123 || c == 59) && (s.take k == kwInput || s.take k == kwOutput) then
-            .ok { tok := .kw, word := s.take k, ind := ind1, depth := depth, rest := r }
-          else .error .inStrExp
-      else ext (k == 0) 0 ind1 k r
+  | .ok (ind, s) => kwAt ind depth s
 
 /-! ## generic statements (`parse_ext_substmt`) -/
 
